@@ -129,7 +129,13 @@ def cases(run: Run):
         a0 = rng.choice([0.0, 10.0, 90.0, 350.0, 359.0, 180.0, rng.uniform(0, 360)])
         a1 = rng.choice([360.0, 10.0, 5.0, 90.0, 1.0, rng.uniform(0, 360)])
         az = rng.choice([0.0, 359.999, 0.001, a0, a1, rng.uniform(0, 360), (a0 + a1) / 2, ((a0 + a1) / 2 + 180) % 360])
-        out.append({"op": "azmask", "a0": a0, "a1": a1, "az": az, "el": rng.choice([10.0, 45.0, 89.0, 0.5])})
+        c = {"op": "azmask", "a0": a0, "a1": a1, "az": az, "el": rng.choice([10.0, 45.0, 89.0, 0.5])}
+        if float(a0).is_integer() and float(a1).is_integer():
+            # whole-degree masks handed over as integer arrays (a legal way to write [350, 10]); the elevation then also reaches up to 75 deg
+            c["int_masks"] = rng.random() < 0.6
+            if c["int_masks"]:
+                c["el"] = rng.choice([10.0, 45.0, 75.0, 89.0])
+        out.append(c)
     for _ in range(run.n(300, 3000)):
         out.append({"op": "limb", "host": gen_pos(rng, 1.05, 7.0), "tgt_dir": gen_dir(rng, el=rng.uniform(-1.5, 0.3)), "graze": rng.random() < 0.4, "u": rng.random()})
     for _ in range(run.n(300, 3000)):
@@ -150,12 +156,13 @@ def rotz(v, phi):
 _SENSOR = {}
 
 
-def radar(a0, a1):
+def radar(a0, a1, int_masks=False):
     from resonaate.sensors.field_of_view import ConicFoV
     from resonaate.sensors.radar import Radar
 
     return Radar(
-        az_mask=np.array([a0, a1]), el_mask=np.array([0.0, 90.0]), r_matrix=np.ones(4), diameter=10.0, efficiency=0.9,
+        az_mask=(np.array([int(a0), int(a1)]) if int_masks else np.array([a0, a1])),
+        el_mask=(np.array([0, 90]) if int_masks else np.array([0.0, 90.0])), r_matrix=np.ones(4), diameter=10.0, efficiency=0.9,
         tx_power=2.5e6, tx_frequency=1.5e9, min_detectable_power=1.0e-15, slew_rate=3.0,
         field_of_view=ConicFoV(math.radians(10.0)), background_observations=False, minimum_range=None, maximum_range=None,
     )
@@ -246,7 +253,7 @@ def impl_case(c):
     if op == "azmask":
         from resonaate.sensors.sensor_base import Sensor
 
-        s = radar(c["a0"], c["a1"])
+        s = radar(c["a0"], c["a1"], bool(c.get("int_masks")))
         R = float(earth().radius)
         host = np.array([R + 0.5, 0.0, 0.0, 0.0, 0.0, 0.0])
         s._host = SimpleNamespace(eci_state=host, time=0.0)
@@ -373,7 +380,7 @@ def oracle(run: Run, c, impl):
             if i["vis"] != inside:
                 fails.append(("azmask", f"mask [{c['a0']},{c['a1']}] deg, azimuth {math.degrees(az):.4f}: visible={i['vis']} ({i['why']})"))
             if not i["vis"] and i["why"] != "AZIMUTH_MASK":
-                fails.append(("azmask:reason", f"rejected for {i['why']}"))
+                fails.append(("azmask:reason", f"mask [{c['a0']},{c['a1']}] deg{' (integer arrays)' if c.get('int_masks') else ''}, elevation {c['el']} deg inside [0, 90]: rejected for {i['why']}"))
     elif op == "limb":
         Rl = float(E.radius) + float(E.atmosphere)
         d = math.sqrt(sum(x * x for x in c["host"]))
